@@ -78,6 +78,7 @@ import Pandora.Model.C16Locals
 import Pandora.Model.C16Ammo
 import Pandora.Model.C16Frozen
 import Pandora.Model.C16Src
+import Pandora.Model.C16Read
 import Pandora.Spec.C16
 import Pandora.Proofs.C16
 import Pandora.Proofs.C16Locals
@@ -481,6 +482,60 @@ theorem C16_durations_wrap (ms : Int) :
     (msToNs ms - ms * 1000000) % 18446744073709551616 = 0 := by
   unfold msToNs wrap64
   omega
+
+/-! ### round 4: a file that could not be read completely is refused by either front-end -/
+
+/-- does the front-end test the error of `io.ReadAll` and return it? (regenerated error flow) -/
+def readChecked (fn : String) : Bool := Gen.HclYaml.errFlow.contains (fn, "io.ReadAll", "returned")
+
+/-- ANY fault while the file is opened, stat-ed, read (at any offset, also after the last byte) or closed — alone or
+coinciding with others — makes `ReadAmmoConfig` refuse the file, whatever the front-end (`parse`) would make of the
+bytes that did arrive, PROVIDED the front-end tests the error of `io.ReadAll`. -/
+theorem C16_io_fault_refuses {α : Type} (parse : List Char → Option α) (text : List Char) (p : IOPlan)
+    (h : p.clean = false) : readAmmoConfig true parse text p = none := by
+  obtain ⟨o, st, rd, cl⟩ := p
+  cases o <;> cases st <;> cases cl <;> cases rd <;> simp_all [readAmmoConfig, readAll, IOPlan.clean]
+
+/-- … and without a fault `ReadAmmoConfig` is the front-end on the text of the file, tested error or not -/
+theorem C16_io_clean_transparent {α : Type} (c : Bool) (parse : List Char → Option α) (text : List Char) (p : IOPlan)
+    (h : p.clean = true) : readAmmoConfig c parse text p = parse text := by
+  obtain ⟨o, st, rd, cl⟩ := p
+  cases o <;> cases st <;> cases cl <;> cases rd <;> simp_all [readAmmoConfig, readAll, IOPlan.clean]
+
+/-- the two renderings of one description under faults of their own (any two plans that are not clean, any two
+texts): both refused — no fault makes one front-end accept what the other refuses -/
+theorem C16_io_fault_twins {α : Type} (ph py : List Char → Option α) (th ty : List Char) (p q : IOPlan)
+    (hp : p.clean = false) (hq : q.clean = false) :
+    readAmmoConfig true ph th p = readAmmoConfig true py ty q := by
+  rw [C16_io_fault_refuses ph th p hp, C16_io_fault_refuses py ty q hq]
+
+/-- the full statement for a front-end with a given `checked` flag -/
+def C16_io_fault_statement (checked : Bool) : Prop :=
+  ∀ (parse : List Char → Option Nat) (text : List Char) (p : IOPlan), p.clean = false →
+    readAmmoConfig checked parse text p = none
+
+theorem C16_io_fault_checked : C16_io_fault_statement true := fun parse text p h => C16_io_fault_refuses parse text p h
+
+/-- a front-end that does not test the error of `io.ReadAll` accepts the prefix that arrived: the statement fails -/
+theorem C16_io_fault_counterexample : ¬ C16_io_fault_statement false := by
+  intro h
+  have := h (fun t => some t.length) "ab".toList { readAt := some 1 } (by decide)
+  simp [readAmmoConfig, readAll] at this
+
+/-- the current source: both front-ends test that error (regenerated), so the statement holds for both -/
+theorem C16_io_fault_current :
+    C16_io_fault_statement (readChecked "ParseHCLFile") ∧ C16_io_fault_statement (readChecked "ParseAmmoConfig") := by
+  have h1 : readChecked "ParseHCLFile" = true := by decide
+  have h2 : readChecked "ParseAmmoConfig" = true := by decide
+  rw [h1, h2]
+  exact ⟨C16_io_fault_checked, C16_io_fault_checked⟩
+
+/-- non-vacuity: a read fault after 3 bytes coinciding with a Close fault; a fault after the LAST byte; the unchecked
+front-end on a text whose prefix parses -/
+example : ({ readAt := some 3, closeF := true } : IOPlan).clean = false := by decide
+example : readAmmoConfig true (fun t => some t.length) "abc".toList { readAt := some 3 } = none := by decide
+example : readAmmoConfig false (fun t => some t.length) "abc".toList { readAt := some 2 } = some 2 := by decide
+example : readAmmoConfig true (fun t => some t.length) "abc".toList {} = some 3 := by decide
 
 /-! ### every field survives the conversion -/
 
